@@ -48,8 +48,23 @@ func ruleR08_2(w *World, r *Report) {
 		}
 		nErrPaths++
 		need := map[string]bool{"SetErrorBit": false, "NewErrorOperation": false, "append": false}
-		for _, c := range callsIn(fn) {
-			if _, want := need[calleeName(c)]; want && p.Blocks[c.Block()] {
+		var cands []ssa.CallInstruction
+		forEachInstr(fn, func(in ssa.Instruction) {
+			if ci, ok := in.(ssa.CallInstruction); ok {
+				cands = append(cands, ci)
+			}
+		})
+		for _, c := range cands {
+			// a call inside a new helper is on the path when the helper's call site is (and the call always runs there)
+			onPath := p.Blocks[c.Block()]
+			if c.Parent() != fn {
+				for _, site := range liftAll(c.(ssa.Instruction), fn) {
+					if p.Blocks[site.Block()] && alwaysRuns(c.(ssa.Instruction)) {
+						onPath = true
+					}
+				}
+			}
+			if _, want := need[calleeName(c)]; want && onPath {
 				if calleeName(c) == "NewErrorOperation" && !strings.HasSuffix(canonName(c.Common().Args[0]), ".err") {
 					continue
 				}
@@ -103,11 +118,15 @@ func ruleR08_3(w *World, r *Report) {
 		return
 	}
 	var sw *ast.SwitchStmt
-	for _, s := range switchesIn(fd.Body) {
-		if s.Tag != nil {
-			if tv, ok := p.TypesInfo.Types[s.Tag]; ok {
-				if n := namedOf(tv.Type); n != nil && n.Obj().Name() == "ErrorCode" {
-					sw = s
+	// the switch may live in a new helper extracted from checkOptionAndError
+	for _, hd := range u.declWithNewHelpers(pDatatypes, "WiredDatatype", "checkOptionAndError") {
+		for _, s := range switchesIn(hd.Body) {
+			if s.Tag != nil {
+				if tv, ok := p.TypesInfo.Types[s.Tag]; ok {
+					if n := namedOf(tv.Type); n != nil && n.Obj().Name() == "ErrorCode" {
+						sw = s
+						fd = hd
+					}
 				}
 			}
 		}
